@@ -23,6 +23,7 @@ type LoopContract struct {
 	Invariants []Clause
 	Decreases  *Clause
 	Uses       []Clause
+	Entry      []Clause // `loop N entry <cond>`: checked when the loop is entered (not assumed, not an invariant)
 	Steps      []Clause // `loop N step <cond>`: must hold at the end of every iteration (before the post statement)
 	Returns    []Clause // `loop N returns <cond>`: must hold at every return statement lexically inside the loop
 }
@@ -424,6 +425,8 @@ func (cs *ContractSet) loadFile(path string) error {
 				lc.Returns = append(lc.Returns, cl)
 			case "step":
 				lc.Steps = append(lc.Steps, cl)
+			case "entry":
+				lc.Entry = append(lc.Entry, cl)
 			default:
 				return fmt.Errorf("%s:%d: bad loop directive %q", path, l.no, f[1])
 			}
